@@ -1,4 +1,4 @@
-From Pybtex Require Import Base.Prelude Base.PyChar Base.PyStr Model.BibtexStr Model.Wrap Model.Bst.
+From Pybtex Require Import Base.Prelude Base.PyChar Base.PyStr Model.BibtexStr Model.Wrap Model.Bst Spec.BstTyping.
 Require Extraction.
 Require Import ExtrOcamlBasic.
 
@@ -89,6 +89,68 @@ Definition cw_of (tbl : list (char * Z)) (c : char) : Z :=
   match find (fun p => N.eqb (fst p) c) tbl with Some p => snd p | None => 0%Z end.
 Definition d_cw (s : sexp) : list (char * Z) := d_list (fun p => (d_N (d_nth p 0), d_Z (d_nth p 1))) s.
 
+
+(* 2: does the type checker of Spec/BstTyping.v accept the whole program?  Declarations are run on the model
+   (they execute nothing), EXECUTE {f} is checked in the current context and stack shape, ITERATE / REVERSE {f}
+   must leave the stack shape unchanged (any number of entries). *)
+Definition is_decl (n : str) : bool :=
+  str_eqb n nm_entry || str_eqb n nm_integers || str_eqb n nm_strings || str_eqb n nm_function || str_eqb n nm_macro.
+Definition no_fmt : str -> str -> res str := fun _ _ => Crash.
+Definition no_cw : char -> Z := fun _ => 0%Z.
+(* does this body, at its top level, assign sort.key$ ? *)
+Fixpoint sets_sort_key (body : list instr) : bool :=
+  match body with
+  | IQuote q :: ((IId a :: _) as rest) =>
+    (str_eqb (lower q) nm_sort_key_ && str_eqb (lower a) [58%N; 61%N]) || sets_sort_key rest
+  | _ :: rest => sets_sort_key rest
+  | [] => false
+  end.
+Definition fun_sets_sort_key (st : state) (f : str) : bool :=
+  match vlookup f (st_vars st), vlookup [58%N; 61%N] (st_vars st), vlookup nm_sort_key_ (st_vars st) with
+  | Some (OFun body), Some (OBuiltin B_assign), Some (OEStr n) => str_eqb n nm_sort_key_ && sets_sort_key body
+  | _, _, _ => false
+  end.
+
+Fixpoint typecheck (cmds : list command) (st : state) (rd keyed : bool) (s : list aval) : option (list aval) :=
+  match cmds with
+  | [] => Some s
+  | Cmd name args :: rest =>
+    let n := lower name in
+    if is_decl n then
+      match run_command no_fmt no_cw 0 st (Cmd name args) with
+      | Ok st' => typecheck rest st' rd keyed s
+      | _ => None
+      end
+    else if str_eqb n nm_execute then
+      match args with
+      | [[IId f]] =>
+        if ctx_ok (st_vars st) then
+          match check (st_vars st) false 400 s [IId f] with
+          | Some s' => typecheck rest st rd keyed s'
+          | None => None
+          end
+        else None
+      | _ => None
+      end
+    else if str_eqb n nm_iterate || str_eqb n nm_reverse then
+      match args with
+      | [[IId f]] =>
+        if ctx_ok (st_vars st) && rd then
+          match check (st_vars st) true 400 (map weaken s) [IId f] with
+          | Some s' => if stack_eqb s' s then typecheck rest st rd (keyed || fun_sets_sort_key st f) (map weaken s) else None
+          | None => None
+          end
+        else None
+      | _ => None
+      end
+    else if str_eqb n nm_read then
+      match args with [] => if rd then None else typecheck rest st true false s | _ => None end
+    else if str_eqb n nm_sort then
+      (* every citation needs a sort.key$: accepted after an ITERATE / REVERSE of a function that assigns it *)
+      match args with [] => if keyed then typecheck rest st rd keyed s else None | _ => None end
+    else None
+  end.
+
 (* 1: a whole run:  (commands citations reads fmt_table cw_table fuel) *)
 Definition dispatch (fn : Z) (a : sexp) : sexp :=
   match fn with
@@ -100,6 +162,13 @@ Definition dispatch (fn : Z) (a : sexp) : sexp :=
     let cw := cw_of (d_cw (d_nth a 4)) in
     let fuel := d_nat (d_nth a 5) in
     e_res e_state (run fmt cw fuel (initial_state cites reads) cmds)
+  | 2%Z =>
+    let cmds := d_list d_command (d_nth a 0) in
+    let st0 := initial_state [] [] in
+    (match typecheck cmds st0 false false [] with
+     | Some s => L [A 1%Z; e_nat (length s)]
+     | None => L [A 0%Z]
+     end)
   | _ => L []
   end.
 
